@@ -32,4 +32,17 @@ var checks = map[string]*checkDef{
 			"separation of sibling histories is checked on sampled single edits, not proved",
 		},
 	},
+	"C19": {
+		property: "C19", level: "fault_enumeration",
+		plan: []planItem{
+			{workload: "C19", variant: "plain", quick: 700, thorough: 14000},
+			{workload: "C19", variant: "purego", thorough: 1400, thoroughOnly: true},
+			{workload: "C19", variant: "force32bit", thorough: 1400, thoroughOnly: true},
+		},
+		assume: []string{
+			"scope: artifacts the running system produced, under the faults storage and networks produce (enumerated per artifact); the universal claim over all byte strings is not decided, seeded random strings are added as noise only",
+			"the list of documented panics is the one in DESIGN Appendix C",
+			"neutral states: identity for Edwards/Ristretto points and their compressed forms, the reset state for sr25519 Signature/PublicKey/KeyPair; for all other receivers 'unchanged or neutral, never a hybrid' is demanded because nothing more is documented",
+		},
+	},
 }
